@@ -52,12 +52,22 @@ def wl_heavy(ctx, rng, case):
     case.desc["query_type"] = qtype
     last = {}
     evictions = 0
-    for step in range(rng.randint(5, 60)):
+    # how often the table is READ: after every call, or only after every 2nd..5th (several table-changing calls between two reads)
+    every = rng.choice([1, 1, 1, 2, 3, 5])
+    case.desc["table_read_every"] = every
+    n_steps = rng.randint(5, 60)
+    if rng.random() < 0.04:
+        # the element total is driven to its 64-bit limit first: later additions leave it unchanged while the table keeps changing
+        k0 = rng.choice(keys)
+        case.op("add", k0, 2**63 - 1 - rng.randint(0, 2))
+        last[k0] = hh.add(k0, case.ops[-1][2])
+        ctx.count("heavy.histories_with_total_at_int64_limit")
+    for step in range(n_steps):
         r = rng.random()
         if r < 0.93:
             k = rng.choice(keys)
             n = rng.choice([1, 1, 1, 2, 3, 10])
-            was_tracked = set(hh.heavy_hitters)
+            was_tracked = set(hh.heavy_hitters) if every == 1 else set()
             if rng.random() < 0.85:
                 case.op("add", k, n)
                 ret = hh.add(k, n)
@@ -67,7 +77,7 @@ def wl_heavy(ctx, rng, case):
             last[k] = ret
             if qtype != "mean-min":
                 ctx.check(ret == hh.check(k), f"value returned by add differs from check() at step {step}", key=k, returned=ret)
-            if was_tracked - set(hh.heavy_hitters):
+            if every == 1 and was_tracked - set(hh.heavy_hitters):
                 evictions += 1
                 ctx.count("evictions_observed")
             ctx.count("op.add")
@@ -91,7 +101,10 @@ def wl_heavy(ctx, rng, case):
         # with the mean-min query estimates are not monotone, so the "no untracked key above the smallest tracked one" clause cannot be
         # kept by any table that is only updated on a key's own add (it fails on the unchanged tree too); the size and the
         # tracked-value clauses are independent of the query type and are checked for all three
-        check_hh(ctx, hh, last, H, f"after step {step} ({case.ops[-1][0]}), {qtype} query", floor_clause=(qtype != "mean-min"))
+        if step % every and step != n_steps - 1:
+            ctx.count("steps_between_two_table_reads")
+            continue
+        check_hh(ctx, hh, last, H, f"after step {step} ({case.ops[-1][0]}), {qtype} query, table read every {every} steps", floor_clause=(qtype != "mean-min"))
         ctx.count("table_comparisons")
     case.nontrivial = len(last) > H or evictions > 0
 
@@ -120,7 +133,11 @@ def wl_threshold(ctx, rng, case):
     last = {}
     true = Counter()
     drops = 0
-    for step in range(rng.randint(5, 60)):
+    every = rng.choice([1, 1, 1, 2, 2, 3, 5])  # table read after every call, or only after every 2nd..5th
+    case.desc["table_read_every"] = every
+    n_steps = rng.randint(5, 60)
+    since_read = 0
+    for step in range(n_steps):
         r = rng.random()
         live = [k for k in keys if true[k] > 0]
         if r < 0.6 or not live:
@@ -163,7 +180,10 @@ def wl_threshold(ctx, rng, case):
             ctx.count("op.reload")
         if case.ops[-1][0] in ("add", "add_alt", "remove", "remove_alt"):
             ctx.check(ret == st.check(k), f"value returned by {case.ops[-1][0]} differs from check() at step {step}", key=k, returned=ret)
-        check_st(ctx, st, last, T, f"after step {step} ({case.ops[-1][0]})")
+        if step % every and step != n_steps - 1:
+            ctx.count("steps_between_two_table_reads")
+            continue
+        check_st(ctx, st, last, T, f"after step {step} ({case.ops[-1][0]}), table read every {every} steps")
         # consequence stated in the property: a key whose true count reaches the threshold right at its own operation is tracked
         for k in keys:
             if k in last and true[k] >= T and case.ops[-1][1:2] == (k,) and k not in st.meets_threshold:
